@@ -288,6 +288,50 @@ func (c *Ctx) c09ErrorOffers() {
 			}
 		}
 	})
+	if offer == nil {
+		// the offer written as a helper or a method of the channel's type: a call that hands the report to a
+		// function every path of which sends that parameter; the channel is the argument the helper sends on
+		for _, ci := range flow.CallInstrs(ef) {
+			h := flow.StaticCallee(ci)
+			if h == nil || h.Blocks == nil || !c.P.IsLibrary(h) {
+				continue
+			}
+			for j, a := range ci.Common().Args {
+				if flow.Peel(a) != ssa.Value(ef.Params[1]) || j >= len(h.Params) {
+					continue
+				}
+				hoffers := map[ssa.Instruction]bool{}
+				var hch ssa.Value
+				flow.Instrs(h, func(in ssa.Instruction) {
+					switch x := in.(type) {
+					case *ssa.Select:
+						for _, st := range x.States {
+							if st.Dir == types.SendOnly && flow.Peel(st.Send) == ssa.Value(h.Params[j]) {
+								hoffers[x], hch = true, st.Chan
+							}
+						}
+					case *ssa.Send:
+						if flow.Peel(x.X) == ssa.Value(h.Params[j]) {
+							hoffers[x], hch = true, x.Chan
+						}
+					}
+				})
+				if len(hoffers) == 0 {
+					continue
+				}
+				hentry := h.Blocks[0].Instrs[0]
+				if p := flow.PathAvoiding(h, hentry, flow.IsExit, func(in ssa.Instruction) bool { return hoffers[in] }); p != nil && !hoffers[hentry] {
+					continue // the helper does not offer on every path: not an offer
+				}
+				if hp, isP := flow.Peel(hch).(*ssa.Parameter); isP {
+					if k := paramIndex(h, hp); k >= 0 && k < len(ci.Common().Args) {
+						offer, ch = ci, ci.Common().Args[k]
+						offers[ci] = true
+					}
+				}
+			}
+		}
+	}
 	key := fname(ef) + ":offers-on-every-path"
 	if offer == nil {
 		r.Fail("R5", key, c.fpos(ef), "Error never sends the report it is given on a channel: unmatched messages are dropped without a report")
